@@ -11,6 +11,8 @@ def run(chk):
     vlib.protocol_mc(chk)
     depth = 3 if q else 4
     behs = vlib.generate_behaviours(chk, depth, rich=True, name="rich", maxdev=2)
+    for b in behs:
+        b.pop("rets", None)      # handles and gate counts are C16's business: only the results of prove and verify are judged here
     bad = [b for b in behs if b["expect_v"] == "reject"]
     chk.sample({"tlc_behaviour": bad[len(bad) // 2]})
     extra = []
